@@ -410,7 +410,15 @@ func trunc(s string) string {
 // its statement: encoding ends (with the value or with an error), the process survives. Each kind runs in a
 // job of its own, so that a dead worker names it.
 var valueCycleKinds = []string{"map-contains-itself", "list-contains-itself", "interface-points-to-itself", "map-in-list-in-map", "list-of-two-lists-containing-each-other",
-	"list-contains-itself-twice", "wide-list-contains-itself", "map-contains-itself-under-two-keys"}
+	"list-contains-itself-twice", "wide-list-contains-itself", "map-contains-itself-under-two-keys", "struct-points-to-itself-twice-beside-a-field-that-fails"}
+
+// cycT: two pointers to itself and, between them, a field whose encoder reports an error of its own (a year
+// beyond 9999): the refusal of the first pointer must survive that other error
+type cycT struct {
+	A *cycT
+	T time.Time
+	B *cycT
+}
 
 func valueCycle(kind string) interface{} {
 	switch kind {
@@ -430,6 +438,10 @@ func valueCycle(kind string) interface{} {
 		m := map[interface{}]interface{}{}
 		m["l"] = []interface{}{m}
 		return m
+	case "struct-points-to-itself-twice-beside-a-field-that-fails":
+		n := &cycT{T: time.Date(10000, 1, 1, 0, 0, 0, 0, time.UTC)}
+		n.A, n.B = n, n
+		return n
 	case "list-contains-itself-twice":
 		// an encoder that goes on after it has refused the first occurrence descends again from every level
 		s := []interface{}{nil, nil}
